@@ -224,6 +224,23 @@ def run_special(case, res, cls, lfu):
     c = cls(n)
     for i in range(n):
         c[i] = i
+    if lfu:
+        # whichever end of the frequency list a key with a fresh count sits at, one of these two lookups has to pass all the
+        # other entries: both keys end up behind every key that was used once
+        for probe in (n - 1, n // 2):
+            with instr.budget(40 * n + 20000):
+                try:
+                    v = c[probe]
+                except instr.StepBudgetExceeded:
+                    raise Violation("operation-does-not-end", f"lookup in a cache of {n} entries with equal use counts exceeded its statement budget", {})
+            order = list(c)
+            res.evaluations += 1
+            if v != probe or len(order) != n or not (set(order[-2:]) >= {probe}) or order.index(probe) < n - 2:
+                raise Violation("iteration-order", f"{n} keys used once, key {probe} looked up: it is listed at position {order.index(probe)} of {n} "
+                                "(iteration must be in non-decreasing use count)", {})
+        for probe in (n - 1, n // 2):
+            del c[probe]
+            c[probe] = probe        # back to use count 1 (a new entry)
     with instr.budget(40 * n + 20000):
         try:
             v = c[0]
